@@ -10,8 +10,9 @@
    number of entries of both families in any order, any name-server list, ports,
    user/group, udp flag, mark) satisfying wf_plan, every packet. *)
 From Coq Require Import List NArith ZArith Ascii Bool String.
-From SV Require Import Lib.Bytes Model.FwRules Model.FwWalk Model.FwStale
-  Proofs.FwRules_lemmas Proofs.FwTproxy_lemmas Proofs.FwPf_lemmas Proofs.FwStale_lemmas.
+From SV Require Import Lib.Bytes Model.FwRules Model.FwWalk Model.FwStale Model.FwPfHook
+  Proofs.FwRules_lemmas Proofs.FwTproxy_lemmas Proofs.FwPf_lemmas Proofs.FwStale_lemmas
+  Proofs.FwPfHook_lemmas.
 Import ListNotations.
 Local Open Scope N_scope.
 
@@ -365,3 +366,45 @@ Example c03_ex_nft_flush_needed :
   nft_table_outcome_on ex_left (nft_setup ex_plan V4) (ex_pkt 3232235777 80 Tcp) = OFall 0 /\
   spec_interceptb (pl_entries ex_plan) (ex_pkt 3232235777 80 Tcp) = false.
 Proof. vm_compute. repeat split; reflexivity. Qed.
+
+(* ------------------------------------------------- pf: the complete state *)
+(* The anchor's rules decide only where the MAIN ruleset calls the anchor
+   (Model/FwPfHook.v: rdr-anchor for the rdr rules, anchor for the pass rules,
+   pf enabled).  With both calls present and pf enabled the complete state
+   decides as the property demands; *)
+Theorem c03_pf_state_tcp : forall os pl p ls,
+  wf_plan pl -> p_proto p = Tcp -> p_src_lo p = false ->
+  pf_rules os pl (p_fam p) = Some ls ->
+  pf_state_verdict_of os hook_all ls p =
+  (if spec_interceptb (pl_entries pl) p then Divert (port_of pl (p_fam p)) else Untouched).
+Proof. exact pf_state_tcp_eq. Qed.
+Print Assumptions c03_pf_state_tcp.
+
+Theorem c03_pf_state_hooked : forall os ls p,
+  pf_state_verdict_of os hook_all ls p = pf_verdict_of os ls p.
+Proof. exact pf_state_hooked. Qed.
+Print Assumptions c03_pf_state_hooked.
+
+(* ... and that hypothesis is needed: without the filter `anchor` call (whatever
+   the rdr-anchor call and the anchor's content), or with pf disabled, NOTHING
+   is diverted — every rule set, every packet. *)
+Theorem c03_pf_state_no_filter_call : forall os h ls p,
+  h_pass h = false -> pf_state_verdict_of os h ls p = Untouched.
+Proof. exact pf_state_no_filter_call. Qed.
+Print Assumptions c03_pf_state_no_filter_call.
+
+Theorem c03_pf_state_disabled : forall os h ls p,
+  h_enabled h = false -> pf_state_verdict_of os h ls p = Untouched.
+Proof. exact pf_state_disabled. Qed.
+Print Assumptions c03_pf_state_disabled.
+
+(* main ruleset holding `rdr-anchor "sshuttle-12300"` only: the included
+   10.9.8.9:80 goes out unproxied; rdr-anchor missing (FreeBSD): routed to lo0
+   but not translated there *)
+Example c03_ex_pf_hooks :
+  (forall ls, pf_rules FreeBsd ex_plan V4 = Some ls ->
+     pf_state_verdict_of FreeBsd hook_all ls (ex_pkt 168364297 80 Tcp) = Divert 12300 /\
+     pf_state_verdict_of FreeBsd (mkHook true true false) ls (ex_pkt 168364297 80 Tcp) = Untouched /\
+     pf_state_verdict_of FreeBsd (mkHook true false true) ls (ex_pkt 168364297 80 Tcp) = Stray) /\
+  spec_interceptb (pl_entries ex_plan) (ex_pkt 168364297 80 Tcp) = true.
+Proof. split; [intros ls H; vm_compute in H; injection H as <-; vm_compute; repeat split; reflexivity | vm_compute; reflexivity]. Qed.
